@@ -53,7 +53,12 @@ func (l *ConcurrentLimiter) Acquire(ctx context.Context) (err error) {
 		cancel()
 		return
 	}
-	l.tasks <- struct{}{}
+	// no time-out of the limiter's own: the request still waits no longer than its caller
+	select {
+	case <-ctx.Done():
+		err = ctx.Err()
+	case l.tasks <- struct{}{}:
+	}
 	return
 }
 
